@@ -36,5 +36,6 @@ pub fn fuzz_table() -> vh_core::secfuzz::Table {
         entry("C07", "same_key_other_kind", c07::mix_strategy, c07::check_mix),
         entry("C09", "cluster", c09::case_strategy, c09::check),
         entry("C09", "forced_fetch", c09::forced_strategy, c09::check_forced),
+        entry("C09", "advert_fanout", c09::fanout_strategy, c09::check_fanout),
     ]
 }
